@@ -26,6 +26,7 @@ class Unit:
         self.theory = []
         self.entries = []
         self.path = None
+        self.defaults = {}
 
 DIRECTIVE = re.compile(r'^\s*//@\s*(\S+)\s*(.*)$')
 
@@ -72,6 +73,15 @@ def parse(path):
             continue
         if d == 'theory':
             unit.theory = rest.split()
+            continue
+        if d == 'defaults':
+            for kv in rest.split(';'):
+                kv = kv.strip()
+                if '=' in kv:
+                    k, v = kv.split('=', 1)
+                    unit.defaults[k.strip()] = v.strip()
+                elif kv:
+                    unit.defaults[kv] = True
             continue
         flush()
         start_line = ln
